@@ -315,6 +315,7 @@ Proof.
   - destruct (end_block_idx nn (fun s0 r _ G N0 => process_nn s0 r N0 G) (fun s0 h N0 => w_height_nn h s0 N0) s I N) as (_ & Q & _).
     exact Q.
   - destruct (nst_balance s staker asset x) as [s'|] eqn:E; simpl; [|exact N]. eapply nst_balance_nn; eauto.
+  - exact N.
 Qed.
 
 Lemma run_nn ops : forall s, idx_inv s -> nn s -> hist_ok s ops = true -> nn (run ops s).
